@@ -1,3 +1,4 @@
+CONSTANT Small = FALSE
 SPECIFICATION MCSpec
 INVARIANTS PosIsConsumed Bounded TokOK EndOK NoErr LockRight
 PROPERTY LockOnce
